@@ -32,6 +32,9 @@ func TestPoolLifeCycles(t *testing.T) {
 	rapid.Check(t, func(t *rapid.T) {
 		opt := sim.Options{MinActors: 6, MaxActors: 10, Replicas: 1, MaxReplicas: 1, Steps: 0, Params: func(p *sim.Params) {
 			p.CeremonyIn = int64(rapid.SampledFrom([]int{100000, 100000, 600}).Draw(t, "ceremonyIn"))
+			// share of identities that pass a validation with full marks (0 = the simulator's default third): delegators and
+			// pool owners have to survive an epoch change for undelegations to become possible at all
+			p.WellBehaved = rapid.SampledFrom([]int{85, 60, 0, 100}).Draw(t, "wellBehaved")
 			for i := range p.States {
 				if i > 0 && i%4 != 0 {
 					p.States[i] = rapid.SampledFrom([]state.IdentityState{state.Verified, state.Verified, state.Human, state.Newbie}).Draw(t, "genesisState")
@@ -46,13 +49,17 @@ func TestPoolLifeCycles(t *testing.T) {
 		w := h.W
 		r := w.Replicas[0]
 		sawPoolDiff := false
-		nonces := map[common.Address]uint32{}
+		type nonceKey struct {
+			addr  common.Address
+			epoch uint16
+		}
+		nonces := map[nonceKey]uint32{} // (account nonces start again in every epoch)
 		desc := ""
 
 		mkTx := func(a *sim.Actor, typ types.TxType, to *common.Address, payload []byte, amount *big.Int) *types.Transaction {
 			s := r.ReadState()
 			epoch := s.State.Epoch()
-			n := nonces[a.Addr]
+			n := nonces[nonceKey{a.Addr, epoch}]
 			if sn := r.AppState.NonceCache.GetNonce(a.Addr, epoch); sn > n {
 				n = sn
 			}
@@ -77,7 +84,7 @@ func TestPoolLifeCycles(t *testing.T) {
 				}
 				return
 			}
-			nonces[a.Addr] = tx.AccountNonce
+			nonces[nonceKey{a.Addr, tx.Epoch}] = tx.AccountNonce
 			evid.Count("intent.accepted." + what)
 			desc += what + ";"
 		}
@@ -99,15 +106,30 @@ func TestPoolLifeCycles(t *testing.T) {
 			if min := time.Unix(r.Head().Time(), 0).Add(10 * time.Second); w.Now().Before(min) {
 				w.SetNow(min)
 			}
+			// A round may end without an accepted proposal: the block is then an EMPTY block, which runs its own copy of the
+			// identity steps (status / delegation / discrimination switches, delayed penalties, epoch result, switching pools
+			// that lost their members off). One round in ten is drawn empty; a round whose height is a switch height with
+			// entries pending - the empty block will be an identity-update block - every other one.
+			rv := viewRound(r)
+			emptyOdds := 9
+			if rv.due {
+				emptyOdds = 1
+			}
+			var proposer *sim.Replica
+			if rapid.IntRange(0, emptyOdds).Draw(t, "emptyRound") != emptyOdds {
+				proposer = w.Proposer(t, 4)
+			} else {
+				evid.Count("round.drawn_empty")
+			}
 			var blk *types.Block
-			if p := w.Proposer(t, 4); p != nil {
-				if p != r {
+			if proposer != nil {
+				if proposer != r {
 					// the proposer works from the pool of the main node
 					for _, tx := range r.Pool.GetPendingTransaction(true, true, 0, false) {
-						p.Pool.AddExternalTxs(validation.MempoolTx, sim.WireCopyTx(tx))
+						proposer.Pool.AddExternalTxs(validation.MempoolTx, sim.WireCopyTx(tx))
 					}
 				}
-				blk = p.Propose().Block
+				blk = proposer.Propose().Block
 			} else {
 				blk = r.EmptyBlock()
 			}
@@ -118,9 +140,61 @@ func TestPoolLifeCycles(t *testing.T) {
 			}
 			h.Blocks = append(h.Blocks, blk)
 			w.NoteBlock(r, blk)
+			rv.classify(blk)
 			if checkRegistryAfterBlock(t, h, blk) {
 				sawPoolDiff = true
 			}
+		}
+
+		// An epoch change in the middle of the life cycles: the chain is driven through a whole validation ceremony (clock
+		// jumps to the period boundaries, blocks - empty rounds included - until the epoch counter moves), with the
+		// scripted epoch result deciding who stays validated. Only afterwards can delegators that joined a pool before
+		// leave it by UndelegateTx (not allowed in the epoch of the delegation), so undelegations pending at identity-update
+		// blocks exist only in cases that passed an epoch.
+		epochsLeft := rapid.SampledFrom([]int{1, 1, 0, 2}).Draw(t, "epochBudget")
+		passEpoch := func() {
+			start := r.ReadState().State.Epoch()
+			for k := 0; k < 40; k++ {
+				s := r.ReadState()
+				if s.State.Epoch() != start {
+					evid.Count("epoch.passed")
+					desc += "epoch;"
+					pools, notValidated, online := 0, 0, 0
+					for _, a := range w.Actors {
+						if s.ValidatorsCache.IsPool(a.Addr) {
+							pools++
+							if !s.ValidatorsCache.IsValidated(a.Addr) {
+								notValidated++
+								if s.ValidatorsCache.IsOnlineIdentity(a.Addr) {
+									online++
+								}
+							}
+						}
+					}
+					if pools > 0 {
+						evid.Count("epoch.passed_with_pools")
+					}
+					if notValidated > 0 {
+						evid.Count("epoch.passed_with_pool_owner_not_validated")
+					}
+					if online > 0 {
+						evid.Count("epoch.passed_with_online_pool_owner_not_validated")
+					}
+					return
+				}
+				if b := w.NextBoundary(s); !b.IsZero() && b.After(w.Now()) {
+					w.SetNow(b.Add(time.Duration(rapid.IntRange(0, 5).Draw(t, "pastBoundary")) * time.Second))
+				}
+				if s.State.ValidationPeriod() != state.AfterLongSessionPeriod {
+					// ceremony transactions (and whatever else the period admits)
+					for n := rapid.IntRange(0, 2).Draw(t, "ceremonyTxs"); n > 0; n-- {
+						tx, _ := w.GenTx(t, r, identityHeavy)
+						r.Pool.AddExternalTxs(validation.InboundTx, tx)
+					}
+				}
+				block()
+			}
+			evid.Count("epoch.not_completed")
 		}
 
 		steps := rapid.IntRange(8, 40).Draw(t, "intents")
@@ -142,7 +216,20 @@ func TestPoolLifeCycles(t *testing.T) {
 					}
 				}
 				bigPoolOnline, smallPool := false, false
+				boundPool, freePoolOnline := false, false // a pool whose delegators cannot / can leave by UndelegateTx in this epoch
 				for _, a := range w.Actors {
+					if vc.IsPool(a.Addr) {
+						for _, d := range w.Actors {
+							did := s.State.GetIdentity(d.Addr)
+							if x := did.Delegatee(); x != nil && *x == a.Addr && vc.Delegator(d.Addr) == a.Addr {
+								if did.DelegationEpoch == s.State.Epoch() {
+									boundPool = true
+								} else if !vc.IsValidated(a.Addr) && vc.IsOnlineIdentity(a.Addr) {
+									freePoolOnline = true
+								}
+							}
+						}
+					}
 					if vc.IsPool(a.Addr) && !vc.IsValidated(a.Addr) {
 						n := 0
 						for _, d := range w.Actors {
@@ -160,10 +247,14 @@ func TestPoolLifeCycles(t *testing.T) {
 					}
 				}
 				switch {
+				case freePoolOnline && rapid.IntRange(0, 2).Draw(t, "walkoutNow") != 0:
+					intent = "walkout"
 				case bigPoolOnline && rapid.Bool().Draw(t, "exodusNow"):
 					intent = "exodus"
 				case inviteePoolOnline:
 					intent = "killInvitee"
+				case boundPool && epochsLeft > 0 && s.State.ValidationPeriod() == state.NonePeriod && rapid.IntRange(0, 2).Draw(t, "epochNow") == 0:
+					intent = "epoch"
 				case smallPool && rapid.Bool().Draw(t, "growPool"):
 					intent = "growPool"
 				case poolOffline:
@@ -292,6 +383,39 @@ func TestPoolLifeCycles(t *testing.T) {
 					}
 					submit(what, mkTx(p.inviter, types.KillInviteeTx, &to, nil, nil), p.inviter)
 				}
+			case "epoch":
+				if epochsLeft > 0 && s.State.ValidationPeriod() == state.NonePeriod {
+					epochsLeft--
+					passEpoch()
+					steps += rapid.IntRange(4, 16).Draw(t, "intentsAfterEpoch") // what the new epoch allows needs some steps, too
+				}
+				continue
+			case "walkout":
+				// every delegator of one online pool around a non-validated address that may leave by UndelegateTx does so;
+				// the undelegations stay pending until the next identity-update block, proposed or empty
+				var pools []*sim.Actor
+				for _, a := range w.Actors {
+					if vc.IsPool(a.Addr) && !vc.IsValidated(a.Addr) && vc.IsOnlineIdentity(a.Addr) {
+						pools = append(pools, a)
+					}
+				}
+				if len(pools) == 0 {
+					break
+				}
+				pool := pools[rapid.IntRange(0, len(pools)-1).Draw(t, "walkoutPool")]
+				n := 0
+				for _, d := range w.Actors {
+					did := s.State.GetIdentity(d.Addr)
+					if x := did.Delegatee(); x != nil && *x == pool.Addr && vc.Delegator(d.Addr) == pool.Addr {
+						n++
+						if sw := s.State.DelegationSwitch(d.Addr); sw == nil || !sw.Delegatee.IsEmpty() {
+							submit("walkout.undelegate", mkTx(d, types.UndelegateTx, nil, nil, nil), d)
+						}
+					}
+				}
+				evid.Count(fmt.Sprintf("walkout.delegators=%d", n))
+				block()
+				continue
 			case "growPool":
 				// a second delegator for a pool around a non-validated address
 				b := pick("smallPool", func(b *sim.Actor, id state.Identity) bool { return vc.IsPool(b.Addr) && !vc.IsValidated(b.Addr) })
@@ -384,4 +508,90 @@ func TestPoolLifeCycles(t *testing.T) {
 			evid.Sample("lifecycle", fmt.Sprintf("blocks=%d intents=%s", len(h.Blocks), desc))
 		}
 	})
+}
+
+// roundView is what is pending before a round, taken from the head state, so that the block of the round - an empty one
+// in particular - can be classified afterwards.
+type roundView struct {
+	due        bool                   // the next height is a switch height with entries pending for it
+	leaving    map[common.Address]int // pool -> delegators with an undelegation pending
+	lastLeave  int                    // pools all of whose delegators have an undelegation pending
+	lastOnline int                    // ... that are online and not validated identities themselves
+	switches   int                    // pending status switches
+	poolTxs    int                    // transactions waiting in the main node's pool
+	killTxs    int                    // terminations among them
+}
+
+func viewRound(r *sim.Replica) *roundView {
+	pre := r.ReadState()
+	next := r.Head().Height() + 1
+	cons := r.Cfg.Consensus
+	rv := &roundView{leaving: map[common.Address]int{}}
+	rv.switches = len(pre.State.StatusSwitchAddresses())
+	rv.due = next%cons.DelegationSwitchRange == 0 && len(pre.State.Delegations()) > 0 ||
+		next%cons.StatusSwitchRange == 0 && (rv.switches > 0 || len(pre.State.DelayedOfflinePenalties()) > 0) ||
+		next%cons.DiscriminationSwitchRange == 0 && len(pre.State.DiscriminationStatusSwitchAddresses()) > 0
+	vc := pre.ValidatorsCache
+	for _, d := range pre.State.Delegations() {
+		if !d.Delegatee.IsEmpty() {
+			continue
+		}
+		id := pre.State.GetIdentity(d.Delegator)
+		if x := id.Delegatee(); x != nil && vc.Delegator(d.Delegator) == *x {
+			rv.leaving[*x]++
+		}
+	}
+	for pool, n := range rv.leaving {
+		members := vc.PoolSize(pool)
+		if vc.IsValidated(pool) {
+			members--
+		}
+		if n >= members {
+			rv.lastLeave++
+			if vc.IsOnlineIdentity(pool) && !vc.IsValidated(pool) {
+				rv.lastOnline++
+			}
+		}
+	}
+	for _, tx := range r.Pool.GetPendingTransaction(true, true, 0, false) {
+		rv.poolTxs++
+		if tx.Type == types.KillTx || tx.Type == types.KillDelegatorTx || tx.Type == types.KillInviteeTx {
+			rv.killTxs++
+		}
+	}
+	return rv
+}
+
+// classify counts the classes of identity-update blocks reached, separately for empty and proposed blocks.
+func (rv *roundView) classify(blk *types.Block) {
+	kind := "proposed"
+	if blk.IsEmpty() {
+		kind = "empty"
+		evid.Count("empty.block")
+		if rv.poolTxs > 0 {
+			evid.Count("empty.with_txs_waiting")
+		}
+		if rv.killTxs > 0 {
+			evid.Count("empty.with_terminations_waiting")
+		}
+	}
+	if !blk.Header.Flags().HasFlag(types.IdentityUpdate) {
+		return
+	}
+	evid.Count(kind + ".identity_update")
+	if blk.Header.Flags().HasFlag(types.ValidationFinished) {
+		evid.Count(kind + ".epoch_result")
+	}
+	if rv.switches > 0 {
+		evid.Count(kind + ".applies_status_switch")
+	}
+	if len(rv.leaving) > 0 {
+		evid.Count(kind + ".applies_undelegation")
+	}
+	if rv.lastLeave > 0 {
+		evid.Count(kind + ".undelegation_of_all_delegators_of_a_pool")
+	}
+	if rv.lastOnline > 0 {
+		evid.Count(kind + ".undelegation_of_all_delegators_of_an_online_pool_not_validated")
+	}
 }
